@@ -274,12 +274,26 @@ def routine_with_fused(ctx, ac, rng):
 
 
 # ------------------------------------------------------------------------------ array level
+def _wide(b):
+    # (promote first: blocks of one array may have different element types, and a reshape may
+    # legitimately store the same numbers in a wider type)
+    b = np.asarray(b)
+    return b.astype("complex128" if b.dtype.kind == "c" else "float64")
+
+
 def sumsq(x):
-    return sum(float(np.sum(np.abs(np.asarray(b)) ** 2)) for b in x.blocks.values())
+    # exactly rounded sum (math.fsum): independent of how the elements are grouped in blocks
+    import math
+
+    tot = []
+    for b in x.blocks.values():
+        w = _wide(b).reshape(-1)
+        tot.extend((w.real * w.real + w.imag * w.imag).tolist() if w.dtype.kind == "c" else (w * w).tolist())
+    return math.fsum(tot)
 
 
 def magnitudes(x):
-    vs = [np.abs(np.asarray(b)).reshape(-1) for b in x.blocks.values()]
+    vs = [np.abs(_wide(b)).reshape(-1) for b in x.blocks.values()]
     if not vs:
         return np.zeros(0)
     v = np.concatenate(vs)
@@ -361,6 +375,11 @@ def make_subject(ctx, rng):
         else:
             idx.append(gen.rand_index(sr, rng, sym, maxc=2, maxd=2, p_single=0.0))
     x = gen.make_array(sr, rng, sym, idx, fermionic=ferm, values=gen.Values(rng, "unique"), sparsity=rng.choice([0.0, 0.3, 0.6]))
+    if len(x.blocks) >= 2 and rng.random() < 0.12:
+        nb, dts_ = gen.mix_block_dtypes(rng, dict(x.blocks))
+        for k_, v_ in nb.items():
+            x.blocks[k_] = v_
+        feats.add("mixed-dtype-blocks")
     if x.ndim >= 2 and rng.random() < 0.35:
         k = rng.randint(0, x.ndim - 2)
         o = ctx.call(lambda: x.fuse((k, k + 1)))
